@@ -2,6 +2,7 @@
 #include "core.h"
 #include <csignal>
 #include <unistd.h>
+#include <sys/syscall.h>
 #include <sys/time.h>
 #include <fcntl.h>
 #include <chrono>
@@ -31,6 +32,10 @@ extern "C" __attribute__((used, visibility("default"))) const char* __ubsan_defa
 extern "C" __attribute__((used, visibility("default"))) const char* __tsan_default_options() {
   return "exitcode=77:halt_on_error=1:report_signal_unsafe=0";
 }
+
+namespace sim { namespace { extern volatile sig_atomic_t g_tsan_report; } }
+// called by ThreadSanitizer for every report (weak hook of the runtime); the report itself goes to stderr
+extern "C" __attribute__((used, visibility("default"))) void __tsan_on_report(void*) { sim::g_tsan_report = 1; }
 
 namespace sim {
 
@@ -64,17 +69,20 @@ void dump_and_report(const char* oracle) {
   int n = snprintf(buf, sizeof buf, "CRASH %ld class=%s plan=%s step=%d\n", g_cur_run, cls, g_plan_path, g_cur ? g_cur->step : -1);
   (void)!write(1, buf, n);
 }
-void on_sanitizer_death() { dump_and_report("memory"); }
+volatile sig_atomic_t g_tsan_report = 0;
+// ThreadSanitizer intercepts _exit and takes its thread-registry lock there, which a dying reporter may already hold: leave through the raw system call
+[[noreturn]] void hard_exit(int code) { syscall(SYS_exit_group, code); __builtin_unreachable(); }
+void on_sanitizer_death() { dump_and_report(g_tsan_report ? "race" : "memory"); }
 void on_signal(int sig) {
   dump_and_report(sig == SIGPROF ? "hang" : sig == SIGABRT ? "abort" : "memory");
-  _exit(sig == SIGPROF ? 78 : 77);
+  hard_exit(sig == SIGPROF ? 78 : 77);
 }
 void on_terminate() {
   const char* what = "terminate";
   try { auto e = std::current_exception(); if (e) std::rethrow_exception(e); } catch (const std::exception& ex) { what = ex.what(); } catch (...) {}
   fprintf(stderr, "std::terminate: %s\n", what);
   dump_and_report("terminate");
-  _exit(77);
+  hard_exit(77);
 }
 
 std::string read_file(const std::string& p) { std::ifstream f(p); std::stringstream s; s << f.rdbuf(); return s.str(); }
